@@ -179,21 +179,35 @@ Theorem C17_mapping_release_not_idempotent_refuted :
 Proof. exact mapping_release_not_idempotent_refuted. Qed.
 Print Assumptions C17_mapping_release_not_idempotent_refuted.
 
-(* release as events: for EVERY sequence of acquire / release / release-again events of every connection, any number of
-   connections and every schedule, the counter equals the number of connections holding a slot (never below zero) and
-   stays within the limit *)
+(* the slot as events: for EVERY sequence of acquire (limit known) / acquire during a quota fault (GetUserQuota fails: let
+   through AND counted) / release / release-again events of every connection, any number of connections and every schedule,
+   the counter equals the number of connections holding a slot — never below zero, nobody is admitted uncounted, nothing is
+   released twice — and the holders admitted against a known limit stay within it *)
 Theorem C17_slot_release_idempotent :
   forall (max : nat) (scripts : list (list hev)) (sched : list nat),
-  let s := hrun true max 0%Z (map h_new scripts) sched in
-  fst s = Z.of_nat (countb h_holding (snd s)) /\ (0 <= fst s)%Z /\ (0 < max -> (fst s <= Z.of_nat max)%Z).
+  let s := hrun true true max 0%Z (map h_new scripts) sched in
+  fst s = Z.of_nat (countb h_holding (snd s)) /\ (0 <= fst s)%Z /\ (0 < max -> countb h_known_holding (snd s) <= max).
 Proof. exact slot_release_idempotent. Qed.
 Print Assumptions C17_slot_release_idempotent.
 
 Theorem C17_slot_release_not_idempotent_refuted :
-  exists sched, let s := hrun false 1 0%Z (map h_new [[HAcq; HRel; HRel]; [HAcq]; [HAcq]]) sched in
-                countb h_holding (snd s) = 2 /\ fst (hrun false 1 0%Z (map h_new [[HAcq; HRel; HRel]; [HAcq]; [HAcq]]) (firstn 3 sched)) = (-1)%Z.
+  exists sched, let s := hrun false true 1 0%Z (map h_new [[HAcq; HRel; HRel]; [HAcq]; [HAcq]]) sched in
+                countb h_holding (snd s) = 2 /\ fst (hrun false true 1 0%Z (map h_new [[HAcq; HRel; HRel]; [HAcq]; [HAcq]]) (firstn 3 sched)) = (-1)%Z.
 Proof. exact slot_release_not_idempotent_refuted. Qed.
 Print Assumptions C17_slot_release_not_idempotent_refuted.
+
+(* admit-without-count on a quota fault (an early `return nil` before the counting branch): the counter under-reports while
+   that connection is open (0 with one holder), is -1 after its release, and then THREE connections hold a slot against the
+   known limit 2 *)
+Theorem C17_slot_fault_admit_uncounted_refuted :
+  exists sched,
+    let scripts := map h_new [[HAcqFault; HRel]; [HAcq]; [HAcq]; [HAcq]] in
+    fst (hrun true false 2 0%Z scripts (firstn 1 sched)) = 0%Z /\
+    countb h_holding (snd (hrun true false 2 0%Z scripts (firstn 1 sched))) = 1 /\
+    fst (hrun true false 2 0%Z scripts (firstn 2 sched)) = (-1)%Z /\
+    countb h_known_holding (snd (hrun true false 2 0%Z scripts sched)) = 3.
+Proof. exact slot_fault_admit_uncounted_refuted. Qed.
+Print Assumptions C17_slot_fault_admit_uncounted_refuted.
 
 (* ---- per-client quotas on active connection codes / active mappings (storage level) ---- *)
 
